@@ -191,6 +191,11 @@ def p_advanced(ns, n):
                  only_modifies(ns, (ns.self, 'index')))
 
 
+def p_mono(ns):
+    """exceptional exits: index only moved forward, still inside the buffer; nothing else modified"""
+    return S.And(pf(ns, 'index') >= pf(ns.old, 'index'), p_inv(ns), only_modifies(ns, (ns.self, 'index')))
+
+
 def chunk(ns_old, off, n):
     """bytes[index+off : index+off+n] of the entry state"""
     b, i = pf(ns_old, 'bytes'), pf(ns_old, 'index')
@@ -267,7 +272,7 @@ contract(C + 'Parser.getVarBytes',
              S.len_(ns.result) == n, S.is_bytes(ns.result),
              p_advanced(ns, ns.lengthLength + n)))(lenfield(ns.old, ns.lengthLength)),
          raises={DecodeError: ('iff', lambda ns: var_short(ns, ns.lengthLength))},
-         prop=PROP,
+         exc_ensures=p_mono, prop=PROP,
          doc='reads an ll-byte length n, returns exactly the next n bytes, consumes ll+n; DecodeError iff the '
              'length field or the declared body is truncated')
 
@@ -311,14 +316,6 @@ contract(C + 'Parser.atLengthCheck',
          raises={DecodeError: ('iff', lambda ns: consumed(ns) > pf(ns, 'lengthCheck'))},
          exc_ensures=lambda ns: only_modifies(ns), prop=PROP,
          doc='True iff exactly lengthCheck bytes consumed, False iff fewer, DecodeError iff more; no state change')
-
-
-def p_mono(ns):
-    """exceptional exits: index only moved forward, still inside the buffer; nothing else modified"""
-    return S.And(pf(ns, 'index') >= pf(ns.old, 'index'), p_inv(ns), only_modifies(ns, (ns.self, 'index')))
-
-
-REG.tasks[C + 'Parser.getVarBytes#Parser.getVarBytes'].exc_ensures = p_mono
 
 
 def elem_at(bytes_, base, k, n):
